@@ -1137,3 +1137,44 @@ Qed.
 Example stack_overflow_reachable_example :
   load_result (canon_env 3 65536) (overflow_file 3) = StackOverflow /\ blen (overflow_file 3) = 54.
 Proof. exact (stack_overflow_reachable (canon_env 3 65536) ltac:(cbn; lia)). Qed.
+
+(** * the index-contents defect of the binary loader, on the model *)
+(** what [Database::create_index] computes when the rows are present (the JSON loader's order, and
+    what the database held before it was saved) *)
+Definition rebuild_index (d : db) (i : index) : index :=
+  match index_table_idx d (i_table i) with
+  | Some ti =>
+      match nth_error (d_tables d) ti with
+      | Some t =>
+          match columns_idx (t_cols t) (i_cols i) with
+          | POk idxs => mkIndex (i_name i) (i_table i) (i_unique i) (i_cols i) (entries_from (t_rows t) idxs 0)
+          | _ => i
+          end
+      | None => i
+      end
+  | None => i
+  end.
+Definition with_indexes_built (d : db) : db :=
+  mkDb (d_schemas d) (d_roles d) (d_tables d) (map (rebuild_index d) (d_indexes d)) (d_triggers d).
+Definition clear_entries (d : db) : db :=
+  mkDb (d_schemas d) (d_roles d) (d_tables d)
+       (map (fun i => mkIndex (i_name i) (i_table i) (i_unique i) (i_cols i) []) (d_indexes d)) (d_triggers d).
+
+(** table T(A INTEGER) with rows 1, 2, 3 and index IA on A *)
+Definition db_indexed : db :=
+  with_indexes_built
+    (mkDb [] [] [mkTable (lit "T") [mkCol (lit "A") TInteger true]
+                   [[BV (VInteger 1)]; [BV (VInteger 2)]; [BV (VInteger 3)]] 0]
+          [mkIndex (lit "IA") (lit "T") false [(lit "A", 0)] []] []).
+
+(** the full round-trip statement (same index CONTENTS after load) is false of the faithful model:
+    the saved database has three index entries, the loaded one none *)
+Lemma file_roundtrip_refuted :
+  map (fun i => length (i_entries i)) (d_indexes db_indexed) = [3%nat]
+  /\ load_result E0 (save_binary db_indexed) = Ok (clear_entries db_indexed) []
+  /\ clear_entries db_indexed <> db_indexed.
+Proof.
+  split; [vm_compute; reflexivity|]. split; [vm_compute; reflexivity|].
+  intros H. apply (f_equal (fun d => map (fun i => length (i_entries i)) (d_indexes d))) in H.
+  vm_compute in H. discriminate.
+Qed.
